@@ -1,7 +1,7 @@
 (* Model of rust-miniscript `policy::semantic::Policy` (src/policy/semantic.rs) — C18.
 
    The functions mirror the Rust code as written: the order of the matches, the
-   un-normalized match at the head of `entails`, the iteration order of the
+   normalize-then-match head of `entails`, the iteration order of the
    `rtl_post_order_iter` + `pop()` loops (children are consumed left to right), the
    arithmetic (`saturating_sub`, `len - unsat - trivial`), the short-circuit of
    `Some(e1? && e2?)`.  Keys and hashes are `N`-indexed atoms (the harness names them so
@@ -259,14 +259,15 @@ Fixpoint entails_f (fuel : nat) (a b : spol) : eres :=
   | S f =>
       if ENTAILMENT_MAX_TERMINALS <? n_terminals a then ENone
       else
-        match a, b with
+        (* match (self.normalized(), other.normalized()) *)
+        let an := normalized a in
+        let bn := normalized b in
+        match an, bn with
         | SUnsat, _ => ESome true
         | STriv, STriv => ESome true
         | STriv, _ => ESome false
         | _, SUnsat => ESome false
         | _, _ =>
-            let an := normalized a in
-            let bn := normalized b in
             if negb (fc_assert_ok an) then EPanic
             else
               let fc := first_constraint an in
